@@ -962,7 +962,13 @@ fn split_text(s: &str) -> Vec<String> {
             x.push(c);
         } else if is_comment {
             continue;
-        } else if c == '"' && is_backquote_prev {
+        } else if is_string && c == '\\' {
+            // An escaped character (\" in particular) does not end an ordinary string literal.
+            x.push(c);
+            if let Some(n) = iter.next() {
+                x.push(n);
+            }
+        } else if c == '"' && is_backquote_prev && !is_string {
             x.push(c);
             ret.push(x);
             x = String::from("");
@@ -1076,6 +1082,15 @@ fn resolve_text_macro_usage<T: AsRef<Path>, U: AsRef<Path>>(
             for text in split_text(&text.text) {
                 if let Some(value) = arg_map.get(&text) {
                     replaced.push_str(*value);
+                } else if text.len() >= 2 && text.starts_with('"') && text.ends_with('"') {
+                    // An ordinary string literal is left untouched (IEEE1800-2017 Clause 22.5.1):
+                    // `` and `" inside it are characters of the literal.
+                    replaced.push_str(
+                        &text
+                            .replace("\\\n", "\n")
+                            .replace("\\\r\n", "\r\n")
+                            .replace("\\\r", "\r"),
+                    );
                 } else {
                     replaced.push_str(
                         &text
